@@ -25,3 +25,4 @@ def run(ctx, rep):
     from ..rules import more5 as _m5
     _m5.rule_inverse_fill(mod, rep)
     more6.rule_max1_scan(mod, rep, config=ctx.config)
+    more6.rule_lacon_altvector(mod, rep, config=ctx.config)
